@@ -35,7 +35,9 @@ pub fn strategy() -> BoxedStrategy<Case> {
             Some(s)
         }),
     ];
-    (issue_spec_strategy(ClaimCfg::FULL, ALL_PATHS, holder_strategy()), prelude).prop_map(|(issue, prelude)| C05Case { issue, prelude }).boxed()
+    let normal = (issue_spec_strategy(ClaimCfg::FULL, ALL_PATHS, holder_strategy()), prelude).prop_map(|(issue, prelude)| C05Case { issue, prelude });
+    // one case in ~3000: an array of more than 2^16 elements, a few of them hidden
+    prop_oneof![3000 => normal, 1 => huge_array_issue_spec().prop_map(|issue| C05Case { issue, prelude: None })].boxed()
 }
 
 pub fn plan(tier: Tier) -> Plan<Case> {
